@@ -38,10 +38,12 @@ const (
 // decoded case
 
 type item struct {
-	kind int // 0 op, 1 intermediate root, 2 copy
+	kind int // 0 op, 1 intermediate root, 2 copy of the main state, 3 copy of a live side branch
 	o    op
 	swap bool
+	from int // kind 3: index of the live side branch that is copied
 	ops  []op
+	mode int // side branch: 0 hashed at block end, 1 committed before main, 2 committed after main, 3 committed at once
 }
 
 type block struct {
@@ -154,17 +156,28 @@ func decodeCase(c Sx) (int, []block) {
 				if len(f) != 1 {
 					panic("hxlib: bad ir item")
 				}
-			case 2:
-				if len(f) != 3 {
+			case 2, 3:
+				if len(f) != 4 {
 					panic("hxlib: bad copy item")
 				}
-				sw := AsInt(f[1])
-				if sw != 0 && sw != 1 {
-					panic("hxlib: bad swap")
+				if it.kind == 2 {
+					sw := AsInt(f[1])
+					if sw != 0 && sw != 1 {
+						panic("hxlib: bad swap")
+					}
+					it.swap = sw == 1
+				} else {
+					it.from = AsInt(f[1])
+					if it.from < 0 || it.from > 8 {
+						panic("hxlib: bad side index")
+					}
 				}
-				it.swap = sw == 1
 				for _, oe := range AsList(f[2]) {
 					it.ops = append(it.ops, decodeOp(oe))
+				}
+				it.mode = AsInt(f[3])
+				if it.mode < 0 || it.mode > 3 {
+					panic("hxlib: bad side mode")
 				}
 			default:
 				panic("hxlib: unknown item kind")
@@ -187,7 +200,10 @@ func encodeItem(it item) Sx {
 		for _, o := range it.ops {
 			ops = append(ops, encodeOp(o))
 		}
-		return L(I(2), I(b2i(it.swap)), ops)
+		if it.kind == 3 {
+			return L(I(3), I(int64(it.from)), ops, I(int64(it.mode)))
+		}
+		return L(I(2), I(b2i(it.swap)), ops, I(int64(it.mode)))
 	}
 }
 
@@ -336,6 +352,7 @@ func guardedApply(st *state.StateDB, o op) int {
 type side struct {
 	st   *state.StateDB
 	dump string
+	mode int
 }
 
 func run(c Sx) Result {
@@ -383,6 +400,95 @@ blocks:
 		}
 		bobs := SL{}
 		var sides []*side
+		parent := root
+		layered := cfg&(cfgPath|cfgSnap) != 0
+		seenBlock := map[common.Hash]bool{}
+		// IntermediateRoot, Commit into the shared database, state.New(root) through every reader
+		commitAndVerify := func(cst *state.StateDB, who string) (SL, common.Hash, bool) {
+			co := SL{}
+			root1 := cst.IntermediateRoot(rules)
+			pre := pdumpImpl(cst, &fails)
+			co = append(co, B(root1[:]), pre)
+			if layered && root1 != parent && seenBlock[root1] {
+				// a sibling branch of this block committed this very root: nothing to add to the layer tree
+				tags["root-shared-with-sibling"] = true
+				co = append(co, I(4))
+				st2, err := state.New(root1, e.sdb)
+				if err != nil {
+					fail("block %d %s: state.New(%x) at a sibling's root: %v", bi, who, root1, err)
+					return append(co, serr(errClass(err))), root1, false
+				}
+				post := pdumpImpl(st2, &fails)
+				if String(post) != String(pre) {
+					fail("block %d %s: getters at the sibling's root differ from the pre-commit getters: %s", bi, who, diffAt(String(post), String(pre)))
+				}
+				return append(co, post), root1, true
+			}
+			if layered && root1 != parent && seen[root1] {
+				// layer trees are keyed by root: a chain revisiting an earlier root cannot be represented
+				tags["root-revisited-stop"] = true
+				return append(co, I(3)), root1, false
+			}
+			root2, err := cst.Commit(rules, uint64(bi+1))
+			if err != nil {
+				cl := errClass(err)
+				tags[fmt.Sprintf("commit-error-%d", cl)] = true
+				if cl != 4 {
+					fail("block %d %s: Commit: %v", bi, who, err)
+				}
+				return append(co, serr(cl)), root1, false
+			}
+			co = append(co, B(root2[:]))
+			if root1 != root2 {
+				fail("block %d %s: Commit root %x != IntermediateRoot %x", bi, who, root2, root1)
+			}
+			seen[root2] = true
+			seenBlock[root2] = true
+			st2, err := state.New(root2, e.sdb)
+			if err != nil {
+				fail("block %d %s: state.New(%x) after Commit: %v", bi, who, root2, err)
+				return append(co, serr(errClass(err))), root2, false
+			}
+			post := pdumpImpl(st2, &fails)
+			co = append(co, post)
+			if String(post) != String(pre) {
+				fail("block %d %s: reopened getters differ from the pre-commit getters: %s", bi, who, diffAt(String(post), String(pre)))
+			}
+			if tr, err := state.VerifNewMPTTrieReader(root2, e.tdb); err != nil {
+				fail("block %d %s: trie reader: %v", bi, who, err)
+			} else if st3, err := state.NewWithReader(root2, e.sdb, state.VerifNewReader(e.codedb.Reader(), tr)); err != nil {
+				fail("block %d %s: NewWithReader(trie): %v", bi, who, err)
+			} else if d := pdumpImpl(st3, &fails); String(d) != String(pre) {
+				fail("block %d %s: trie-reader getters differ from the pre-commit getters: %s", bi, who, diffAt(String(d), String(pre)))
+			}
+			var flat state.StateReader
+			if cfg&cfgPath != 0 {
+				if r, err := e.tdb.StateReader(root2); err == nil {
+					flat = state.VerifNewFlatReader(r)
+				} else {
+					fail("block %d %s: pathdb state reader: %v", bi, who, err)
+				}
+			} else if e.snaps != nil {
+				if s := e.snaps.Snapshot(root2); s != nil {
+					flat = state.VerifNewFlatReader(s)
+				} else if root2 != parent {
+					fail("block %d %s: no snapshot layer for the committed root", bi, who)
+				}
+			}
+			if flat != nil {
+				flatReads++
+				tags["flat-reader"] = true
+				if st4, err := state.NewWithReader(root2, e.sdb, state.VerifNewReader(e.codedb.Reader(), flat)); err != nil {
+					fail("block %d %s: NewWithReader(flat): %v", bi, who, err)
+				} else if d := pdumpImpl(st4, &fails); String(d) != String(pre) {
+					fail("block %d %s: flat-reader getters differ from the pre-commit getters: %s", bi, who, diffAt(String(d), String(pre)))
+				}
+			}
+			if fr := freshRoot(st2); fr != root2 {
+				fail("block %d %s: root %x differs from the root %x of a fresh build of the same observable state", bi, who, root2, fr)
+			}
+			return co, root2, true
+		}
 		destructedBlock := map[int]bool{}
 		existedAtStart := map[int]bool{}
 		for _, ai := range dumpAddrs {
@@ -414,71 +520,102 @@ blocks:
 				bobs = append(bobs, L(B(r1[:]), pdumpImpl(st, &fails)))
 				nIR++
 				tags["mid-block-intermediate-root"] = true
-			case 2:
-				cp := st.Copy()
-				main, sd := st, cp
-				if it.swap {
-					main, sd = cp, st
+			case 2, 3:
+				// src is copied; keep = the branch that stays in place, sd = the new side branch
+				src := st
+				if it.kind == 3 {
+					if it.from >= len(sides) {
+						panic("hxlib: copy of a side branch that does not exist")
+					}
+					src = sides[it.from].st
+					tags["copy-of-copy"] = true
+				}
+				cp := src.Copy()
+				keep, sd := src, cp
+				if it.kind == 2 && it.swap {
+					keep, sd = cp, src
 					tags["copy-becomes-main"] = true
 				}
-				before := String(dumpImpl(main, &fails))
+				before := String(dumpImpl(keep, &fails))
 				outs := SL{}
 				for _, o := range it.ops {
 					outs = append(outs, I(int64(guardedApply(sd, o))))
 				}
 				ds := dumpImpl(sd, &fails)
-				dm := dumpImpl(main, &fails)
+				dm := dumpImpl(keep, &fails)
 				if String(dm) != before {
-					fail("block %d: mutating %s changed the other state: %s", bi,
-						map[bool]string{false: "the copy", true: "the original"}[it.swap], diffAt(String(dm), before))
+					fail("block %d: mutating one side of a Copy changed the other state: %s", bi, diffAt(String(dm), before))
 				}
 				bobs = append(bobs, L(outs, ds, dm))
-				sides = append(sides, &side{st: sd, dump: String(ds)})
-				st = main
+				if it.kind == 2 {
+					st = keep
+				} else {
+					sides[it.from].st = keep
+				}
 				nCopies++
 				tags["copy"] = true
+				tags[fmt.Sprintf("side-mode%d", it.mode)] = true
 				if len(it.ops) > 0 {
 					tags["copy-mutated"] = true
 				}
+				if it.mode == 3 {
+					co, _, _ := commitAndVerify(sd, "side branch committed at once")
+					bobs = append(bobs, co)
+					if d := String(dumpImpl(keep, &fails)); d != String(dm) {
+						fail("block %d: committing one side of a Copy changed the other state: %s", bi, diffAt(d, String(dm)))
+					}
+					for i, o := range sides {
+						if d := String(dumpImpl(o.st, &fails)); d != o.dump {
+							fail("block %d: side branch %d changed when another branch was committed: %s", bi, i, diffAt(d, o.dump))
+						}
+					}
+				} else {
+					sides = append(sides, &side{st: sd, dump: String(ds), mode: it.mode})
+				}
 			}
 		}
-		// side branches: untouched by what the main state did since; then hashed
+		checkSides := func(when string) {
+			for i, sd := range sides {
+				if sd.st == nil {
+					continue
+				}
+				if d := String(dumpImpl(sd.st, &fails)); d != sd.dump {
+					fail("block %d: side branch %d changed %s: %s", bi, i, when, diffAt(d, sd.dump))
+				}
+			}
+		}
+		// side branches before the main state: untouched by what the other branches did; hashed or committed
 		for i, sd := range sides {
-			if d := String(dumpImpl(sd.st, &fails)); d != sd.dump {
-				fail("block %d: side branch %d changed while the other state was mutated: %s", bi, i, diffAt(d, sd.dump))
+			checkSides("while the other branches were mutated or committed")
+			switch sd.mode {
+			case 0:
+				r := sd.st.IntermediateRoot(rules)
+				if err := sd.st.Error(); err != nil {
+					fail("block %d: side branch %d: %v", bi, i, err)
+				}
+				bobs = append(bobs, B(r[:]))
+				sd.st = nil
+			case 1:
+				co, _, _ := commitAndVerify(sd.st, fmt.Sprintf("side branch %d (before main)", i))
+				bobs = append(bobs, co)
+				sd.st = nil
 			}
-			r := sd.st.IntermediateRoot(rules)
-			if err := sd.st.Error(); err != nil {
-				fail("block %d: side branch %d: %v", bi, i, err)
-			}
-			bobs = append(bobs, B(r[:]))
 		}
-		root1 := st.IntermediateRoot(rules)
-		pre := pdumpImpl(st, &fails)
-		bobs = append(bobs, B(root1[:]), pre)
-		if cfg&(cfgPath|cfgSnap) != 0 && root1 != root && seen[root1] {
-			// layer trees are keyed by root: a chain revisiting an earlier root cannot be represented
-			bobs = append(bobs, I(3))
+		mo, root2, ok := commitAndVerify(st, "main")
+		bobs = append(bobs, mo...)
+		if !ok {
 			obs = append(obs, bobs)
-			tags["root-revisited-stop"] = true
 			break blocks
 		}
-		root2, err := st.Commit(rules, uint64(bi+1))
-		if err != nil {
-			cl := errClass(err)
-			bobs = append(bobs, serr(cl))
-			obs = append(obs, bobs)
-			tags[fmt.Sprintf("commit-error-%d", cl)] = true
-			if cl != 4 {
-				fail("block %d: Commit: %v", bi, err)
+		for i, sd := range sides {
+			if sd.mode != 2 {
+				continue
 			}
-			break blocks
+			checkSides("when the main state was committed")
+			co, _, _ := commitAndVerify(sd.st, fmt.Sprintf("side branch %d (after main)", i))
+			bobs = append(bobs, co)
+			sd.st = nil
 		}
-		bobs = append(bobs, B(root2[:]))
-		if root1 != root2 {
-			fail("block %d: Commit root %x != IntermediateRoot %x", bi, root2, root1)
-		}
-		seen[root2] = true
 		if cfg&cfgDisk != 0 && root2 != root {
 			if err := e.tdb.Commit(root2, false); err != nil {
 				fail("block %d: triedb.Commit: %v", bi, err)
@@ -489,51 +626,12 @@ blocks:
 				fail("block %d: snapshot Cap: %v", bi, err)
 			}
 		}
-		// reopen through every reader that can be constructed
-		st2, err := state.New(root2, e.sdb)
-		if err != nil {
-			bobs = append(bobs, serr(errClass(err)))
-			obs = append(obs, bobs)
-			fail("block %d: state.New(%x) after Commit: %v", bi, root2, err)
-			break blocks
-		}
-		post := pdumpImpl(st2, &fails)
-		bobs = append(bobs, post)
-		if String(post) != String(pre) {
-			fail("block %d: reopened getters differ from the pre-commit getters: %s", bi, diffAt(String(post), String(pre)))
-		}
-		if tr, err := state.VerifNewMPTTrieReader(root2, e.tdb); err != nil {
-			fail("block %d: trie reader: %v", bi, err)
-		} else if st3, err := state.NewWithReader(root2, e.sdb, state.VerifNewReader(e.codedb.Reader(), tr)); err != nil {
-			fail("block %d: NewWithReader(trie): %v", bi, err)
-		} else if d := pdumpImpl(st3, &fails); String(d) != String(pre) {
-			fail("block %d: trie-reader getters differ from the pre-commit getters: %s", bi, diffAt(String(d), String(pre)))
-		}
-		var flat state.StateReader
-		if cfg&cfgPath != 0 {
-			if r, err := e.tdb.StateReader(root2); err == nil {
-				flat = state.VerifNewFlatReader(r)
-			} else {
-				fail("block %d: pathdb state reader: %v", bi, err)
+		if cfg&(cfgDisk|cfgCap) != 0 { // once more, from the flattened database
+			if st5, err := state.New(root2, e.sdb); err != nil {
+				fail("block %d: state.New(%x) after flattening: %v", bi, root2, err)
+			} else if d := pdumpImpl(st5, &fails); String(d) != String(mo[1]) {
+				fail("block %d: getters after flattening differ from the pre-commit getters: %s", bi, diffAt(String(d), String(mo[1])))
 			}
-		} else if e.snaps != nil {
-			if s := e.snaps.Snapshot(root2); s != nil {
-				flat = state.VerifNewFlatReader(s)
-			} else if root2 != root {
-				fail("block %d: no snapshot layer for the committed root", bi)
-			}
-		}
-		if flat != nil {
-			flatReads++
-			tags["flat-reader"] = true
-			if st4, err := state.NewWithReader(root2, e.sdb, state.VerifNewReader(e.codedb.Reader(), flat)); err != nil {
-				fail("block %d: NewWithReader(flat): %v", bi, err)
-			} else if d := pdumpImpl(st4, &fails); String(d) != String(pre) {
-				fail("block %d: flat-reader getters differ from the pre-commit getters: %s", bi, diffAt(String(d), String(pre)))
-			}
-		}
-		if fr := freshRoot(st2); fr != root2 {
-			fail("block %d: root %x differs from the root %x of a fresh build of the same observable state", bi, root2, fr)
 		}
 		if root2 == root {
 			tags["empty-state-update"] = true
@@ -823,7 +921,33 @@ func genCase(r *Rng, big_ bool) Sx {
 			}
 		}
 		ntx := r.Range(1, 5)
-		sidesLeft := 2
+		sidesLeft := 3
+		var live []*genCtx
+		addCopy := func() {
+			sidesLeft--
+			var it item
+			var sc *genCtx
+			if len(live) > 0 && r.Chance(1, 4) {
+				i := r.Intn(len(live))
+				it, sc = c.copyItem(live[i], i)
+			} else {
+				it, sc = c.copyItem(nil, 0)
+			}
+			b.items = append(b.items, it)
+			if it.mode != 3 {
+				live = append(live, sc)
+			}
+		}
+		addDiverge := func() {
+			sidesLeft--
+			its, sc := c.diverge()
+			b.items = append(b.items, its...)
+			for _, it := range its {
+				if it.kind == 2 && it.mode != 3 {
+					live = append(live, sc)
+				}
+			}
+		}
 		for t := 0; t < ntx; t++ {
 			if t > 0 || r.Chance(4, 5) {
 				add([]op{c.txStart()})
@@ -841,8 +965,10 @@ func genCase(r *Rng, big_ bool) Sx {
 			for n := 0; n < nops; n++ {
 				add(c.randOps())
 				if sidesLeft > 0 && r.Chance(1, 25) { // copy in the middle of a transaction
-					sidesLeft--
-					b.items = append(b.items, c.copyItem())
+					addCopy()
+				}
+				if sidesLeft > 0 && r.Chance(1, 30) {
+					addDiverge()
 				}
 			}
 			add(c.fixNewContracts())
@@ -851,8 +977,10 @@ func genCase(r *Rng, big_ bool) Sx {
 				b.items = append(b.items, item{kind: 1})
 			}
 			if sidesLeft > 0 && r.Chance(1, 6) { // copy between transactions
-				sidesLeft--
-				b.items = append(b.items, c.copyItem())
+				addCopy()
+			}
+			if sidesLeft > 0 && r.Chance(1, 6) {
+				addDiverge()
 			}
 		}
 		blocks = append(blocks, b)
@@ -860,17 +988,72 @@ func genCase(r *Rng, big_ bool) Sx {
 	return encodeCase(cfg, blocks)
 }
 
-// copyItem: a copy whose side branch is mutated by ops generated against a clone of the reference
-func (c *genCtx) copyItem() item {
-	it := item{kind: 2, swap: c.r.Chance(1, 3)}
-	sc := &genCtx{r: c.r, rf: c.rf.clone(), g: c.g.clone(), rs: c.rs, tx: c.tx}
+// copyItem: a copy (of the main state, or of the live side branch from when src != nil) whose side branch is
+// mutated by ops generated against a clone of the reference; returns the generator context of the side branch
+func (c *genCtx) copyItem(src *genCtx, from int) (item, *genCtx) {
+	it := item{kind: 2, swap: c.r.Chance(1, 3), mode: []int{0, 1, 1, 2, 2, 3, 3, 3}[c.r.Intn(8)]}
+	base := c
+	if src != nil {
+		it.kind, it.swap, it.from = 3, false, from
+		base = src
+	}
+	sc := &genCtx{r: c.r, rf: base.rf.clone(), g: base.g.clone(), rs: c.rs, tx: c.tx}
 	for n := c.r.Intn(6); n > 0; n-- {
 		it.ops = append(it.ops, sc.randOps()...)
 	}
 	if c.r.Chance(1, 3) {
 		it.ops = append(it.ops, sc.scriptedTx(c.r.Intn(6), c.r.Range(1, 4))...)
 	}
-	return it
+	if c.r.Chance(1, 3) {
+		it.ops = append(it.ops, sc.fixNewContracts()...)
+		it.ops = append(it.ops, sc.emit(op{tag: opFinalise, rules: c.rs}))
+	}
+	return it, sc
+}
+
+// diverge: the main state touches account a, is copied, and the two branches continue differently on the
+// same account: the side branch writes slot k (and is committed before, after or long before the main state),
+// the main state reads it, writes exactly the same value, another value, or another slot
+func (c *genCtx) diverge() ([]item, *genCtx) {
+	r := c.r
+	a, k := r.Range(1, 4), r.Intn(4)
+	v := big.NewInt(int64(21 + r.Intn(4)))
+	var out []item
+	emitMain := func(o op) { out = append(out, item{kind: 0, o: c.emit(o)}) }
+	switch r.Intn(3) { // make the object live in the main state
+	case 0:
+		emitMain(op{tag: opSetState, a: a, k: (k + 1) % 4, v: big.NewInt(int64(31 + r.Intn(3)))})
+	case 1:
+		emitMain(op{tag: opAddBalance, a: a, v: big.NewInt(1)})
+	default:
+		emitMain(op{tag: opSetState, a: a, k: k, v: big.NewInt(int64(41 + r.Intn(3)))})
+	}
+	if r.Bool() {
+		for _, o := range c.fixNewContracts() {
+			out = append(out, item{kind: 0, o: o})
+		}
+		emitMain(op{tag: opFinalise, rules: c.rs})
+	}
+	it := item{kind: 2, swap: r.Chance(1, 3), mode: []int{1, 2, 3, 3}[r.Intn(4)]}
+	sc := &genCtx{r: r, rf: c.rf.clone(), g: c.g.clone(), rs: c.rs, tx: c.tx}
+	it.ops = append(it.ops, sc.emit(op{tag: opSetState, a: a, k: k, v: v}))
+	if r.Bool() {
+		it.ops = append(it.ops, sc.emit(op{tag: opSetState, a: a, k: (k + 2) % 4, v: big.NewInt(int64(51 + r.Intn(3)))}))
+	}
+	for n := r.Intn(3); n > 0; n-- {
+		it.ops = append(it.ops, sc.randOps()...)
+	}
+	out = append(out, it)
+	switch r.Intn(5) {
+	case 0: // the main state only reads
+	case 1, 2: // exactly the value the side branch commits
+		emitMain(op{tag: opSetState, a: a, k: k, v: v})
+	case 3:
+		emitMain(op{tag: opSetState, a: a, k: k, v: big.NewInt(int64(61 + r.Intn(3)))})
+	default:
+		emitMain(op{tag: opSetState, a: a, k: (k + 3) % 4, v: v})
+	}
+	return out, sc
 }
 
 func gen(r *Rng, tier string, emit func(Sx)) {
@@ -934,8 +1117,11 @@ func main() {
 			"followed by 1-5 transactions (SetTxContext+Prepare, 1-7 random StateDB calls as in C13 incl. nested snapshots/reverts, Finalise) mixed with scripted " +
 			"transactions (populate a contract with storage, SELFDESTRUCT an existing account, re-create it with different storage in the same or a later " +
 			"transaction/block, EIP-6780 create+destroy in one transaction, write a slot and write it back across a transaction boundary, clear slots), " +
-			"IntermediateRoot between transactions (1 in 5), up to 2 Copy() per block taken between or in the middle of transactions whose side branch is mutated " +
-			"independently (1 in 3 the copy continues as the main state), then IntermediateRoot, Commit, state.New(root). Rule sets {pre-158, 158, Cancun/6780, Amsterdam}, " +
+			"IntermediateRoot between transactions (1 in 5), up to 3 Copy() per block taken between or in the middle of transactions " +
+			"(of the main state or of a live side branch: copies of copies) whose side branch is mutated independently (1 in 3 the copy continues as the main state) and is then " +
+			"only hashed at block end, or COMMITTED into the same database and reopened before the main state, after it, or at once while the main state carries on; scripted divergence: " +
+			"touch an account, copy, the side branch writes a slot and commits, the main state reads that slot / writes exactly the same value / another value / another slot; " +
+			"then IntermediateRoot, Commit, state.New(root) for the main state. Rule sets {pre-158, 158, Cancun/6780, Amsterdam}, " +
 			"possibly advancing between blocks. cfg = scheme {hash, path} x snapshot tree x prefetcher x triedb.Commit per block x snapshot cap. " +
 			"Adversarial stream (5%): destruct of an account with storage under Cancun/Amsterdam rules (Commit must fail: unexpected storage wiping), invalid revert ids. " +
 			"Non-trivial: at least 2 committed blocks and 10 calls; distinct = distinct case line.",
